@@ -102,6 +102,9 @@ def get_engine(pid):
     from . import paired
     if pid in paired.ENGINES:
         return paired.ENGINES[pid]()
+    if pid in ("C19", "C20"):
+        from . import dbsim
+        return dbsim.C19Engine() if pid == "C19" else dbsim.C20Engine()
     if pid == "C10":
         from . import crash
         return crash.C10Engine()
@@ -110,4 +113,4 @@ def get_engine(pid):
 
 def available():
     from . import paired
-    return sorted(set(SINGLE) | set(paired.ENGINES) | {"C10"})
+    return sorted(set(SINGLE) | set(paired.ENGINES) | {"C10", "C19", "C20"})
